@@ -76,6 +76,17 @@ def _landscape_cases(tier):
                             for off in (0.4, 5.0):  # a large constant offset separates mean-padding from zero-padding (uncentred NCC)
                                 out.append({"kind": "landscape", "shape": list(shape), "model": model, "mask": mask, "tilt": tilt,
                                             "upsample": ups, "d": list(d), "offset": off})
+    # search ranges that are zero on some axes only (a search restricted to a plane or a line; flat (1,N,N) boxes) and anisotropic ones
+    for shape, M, ds2 in (((10, 10, 10), (0.0, 2.0, 2.0), [(0, -2, 1), (0, 1, 0), (0, 0, 0)]), ((10, 10, 10), (2.0, 0.0, 0.0), [(-2, 0, 0), (1, 0, 0)]),
+                          ((9, 10, 11), (0.0, 0.0, 2.0), [(0, 0, -2)]), ((1, 12, 12), (0.0, 3.0, 3.0), [(0, 2, -1), (0, -3, 0)]),
+                          ((9, 10, 11), (1.0, 2.5, 0.5), [(1, -2, 0.5), (-1, 0.5, 0)]), ((10, 10, 10), (0.0, 0.0, 0.0), [(0, 0, 0)])):
+        for model in MODELS:
+            for tilt in ("none", "y50:gen0"):
+                for ups in (1, 2):
+                    for d in ds2:
+                        if shape[0] == 1 and (tilt != "none" or model == "FSC"):
+                            continue
+                        out.append({"kind": "landscape", "shape": list(shape), "model": model, "mask": "none", "tilt": tilt, "upsample": ups, "d": list(d), "offset": 0.4, "M": list(M)})
     return out
 
 
@@ -287,12 +298,12 @@ def _run_landscape(case):
     d = np.asarray(case["d"], dtype=np.float64)
     ups = case["upsample"]
     img = (2.0 * data.particle_box(shape, shift=d, blobs=_blobs(shape)) + case.get("offset", 0.4)).astype(np.float32)
-    M = (2.0, 2.0, 2.0)
+    M = tuple(case.get("M", (2.0, 2.0, 2.0)))
     q = quat if quat is not None else np.array([0, 0, 0, 1], dtype=np.float32)
     res = model.align(img, M, quaternion=q)
     lds = np.asarray(model.landscape(img, M, quaternion=q, upsample=ups))
     viol = []
-    sig = lambda what: f"{ID}|{mname}|{what}|upsample={'1' if ups == 1 else '>1'}"  # noqa
+    sig = lambda what: f"{ID}|{mname}|{what}|upsample={'1' if ups == 1 else '>1'}" + ("|partial-range" if "M" in case else "")  # noqa
     if not np.all(np.isfinite(lds)):
         viol.append((sig("landscape-non-finite"), f"shape {lds.shape}"))
     else:
